@@ -134,8 +134,28 @@ def doExact (mode fz sb slb dr : String) : String :=
   let v := if tr.trav.bad then "PANIC" else rs2.verdict
   s!"{showBits st} {showSlots a.slots} {tr.trav.count} {v} {b2s (travAgrees sk tr.trav)}"
 
+/-- `gate <F|D>:<vars>:<matrix> …` (the terms registered on a generic `Qmc`, in the order they were added) →
+`<should_do_cluster_update> <cluster_update is Ok>` as the gate theorem `Qmc.C04.cluster_gate` states them:
+`should` ⇔ every term is symmetric under the global flip ∧ some term is a constant full matrix on one variable;
+`cluster_update` runs ⇔ every term is symmetric — independent of the order of the terms. (The harness uses the
+`_and_offset` constructors only where the diagonal shift cannot change either classification.) -/
+def doGate (terms : List String) : String :=
+  let parsed : List (Bool × List Nat × List Rat) := terms.filterMap fun t =>
+    match t.splitOn ":" with
+    | [k, vs, m] => some (k == "F", parseNats vs, parseRats m)
+    | _ => none
+  let symm (m : List Rat) : Bool :=
+    let a := m.toArray
+    (List.range a.size).all fun i => a[i]! == a[a.size - 1 - i]!
+  let allSym := parsed.all fun (_, _, m) => symm m
+  let anyEdge := parsed.any fun (full, vs, m) =>
+    full && vs.length == 1 && (match m with | [] => false | x :: t => t.all (· == x))
+  if parsed.length != terms.length then "bad:parse"
+  else s!"{b2s (allSym && anyEdge)} {b2s allSym}"
+
 def step (toks : List String) : String :=
   match toks with
+  | "gate" :: terms => doGate terms
   | ["exact", mode, fz, sb, slb, dr] => doExact mode fz sb slb dr
   | ["move", mode, fz, h, sb, slb, sa, sla, dr] => doMove mode fz h sb slb sa sla dr
   | "single" :: fz :: sb :: slb :: n :: rest => doSingle fz sb slb (parseNat n) rest
